@@ -6,5 +6,7 @@ open RV.C01
 #print axioms binop_spec
 #print axioms memory_refines_quadset
 #print axioms iter_sound
+#print axioms iter_all_is_snapshot
+#print axioms binop_any_store
 #print axioms simple_refine_history
 #print axioms pinned_has_context_yields_ghost
